@@ -28,14 +28,47 @@ class DelayJob(Job):
         self.token = token
         self.value = None
         self.t_done = None
+        self.runs = 0
 
     def run(self):
+        self.runs += 1
         if self.delay:
             time.sleep(self.delay)
         self.value = job_value(self.x)
         self.t_done = time.monotonic()
         with _LOCK:
             COMPLETION_LOG.append((self.token, self.x))
+
+
+class OneShot:
+    """a custom one-shot iterable: no len(), no indexing, can be walked exactly once"""
+
+    def __init__(self, items):
+        self._it = iter(list(items))
+
+    def __iter__(self):
+        return self
+
+    def __next__(self):
+        return next(self._it)
+
+
+FORMS = ("list", "tuple", "iter", "genexpr", "oneshot")
+
+
+def shape(form, items):
+    """the batch in one of the iterable forms the evaluators' API accepts"""
+    if form == "list":
+        return list(items)
+    if form == "tuple":
+        return tuple(items)
+    if form == "iter":
+        return iter(list(items))
+    if form == "genexpr":
+        return (x for x in list(items))
+    if form == "oneshot":
+        return OneShot(items)
+    raise ValueError(form)
 
 
 # ---- a pool whose completion order is scripted ------------------------------------------------------
@@ -159,7 +192,7 @@ class ProbB(Problem):
         solution.objectives[:] = [v[0] * v[1], 64 - v[0] * v[1]]
 
 
-CONSTRUCTED = {}      # (algorithm label, problem class name) -> how many instances so far (parent process)
+CONSTRUCTED = {}      # (algorithm label, problem class name, configuration) -> instances so far (parent process)
 SLOW_FIRST = {"on": True}
 
 
@@ -168,32 +201,36 @@ def reset_construction_counter():
 
 
 class TaggedResult(list):
-    """the algorithm's result, remembering who produced it: tag = (algorithm label, problem class, k) where k
-    counts the instances of that algorithm on that problem in construction order, i.e. the replicate/seed"""
+    """the algorithm's result, remembering who produced it:
+    tag = (algorithm label, problem class, k, configuration) where configuration is the constructor argument
+    that experiment() passes through kwargs (batch / population_size) and k counts the instances of that
+    algorithm with that configuration on that problem in construction order, i.e. the replicate/seed"""
     tag = None
 
 
-def _next_tag(label, problem):
-    key = (label, problem.__class__.__name__)
+def _next_tag(label, problem, config):
+    key = (label, problem.__class__.__name__, config)
     k = CONSTRUCTED.get(key, 0)
     CONSTRUCTED[key] = k + 1
-    return (label, problem.__class__.__name__, k)
+    return (label, problem.__class__.__name__, k, config)
 
 
 class TagAlg(Algorithm):
-    """a two-evaluations-per-step random search; earlier replicates are slower"""
+    """a batch-evaluations-per-step random search; earlier replicates are slower"""
     label = "TagAlg"
+    default_config = 1
 
-    def __init__(self, problem, **kwargs):
+    def __init__(self, problem, batch=1, **kwargs):
         super().__init__(problem, **kwargs)
-        self.tag = _next_tag(self.label, problem)
+        self.batch = batch
+        self.tag = _next_tag(self.label, problem, batch)
         self.result = None
 
     def step(self):
         from platypus import RandomGenerator
         if SLOW_FIRST["on"]:
             time.sleep(UNIT * 2 * max(0, 3 - self.tag[2]))
-        sols = [RandomGenerator().generate(self.problem) for _ in range(2)]
+        sols = [RandomGenerator().generate(self.problem) for _ in range(max(1, self.batch))]
         self.evaluate_all(sols)
         r = TaggedResult(sols)
         r.tag = self.tag
@@ -205,18 +242,18 @@ class TagAlg2(TagAlg):
 
 
 class TagNSGAII(NSGAII):
-    """the real NSGA-II; only its result is wrapped so that the replicate can be recognised"""
+    """the real NSGA-II; only its result is wrapped so that the replicate and population size can be recognised"""
     label = "TagNSGAII"
+    default_config = 8
 
-    def __init__(self, problem, **kwargs):
-        kwargs.setdefault("population_size", 8)
-        super().__init__(problem, **kwargs)
-        self.tag = _next_tag(self.label, problem)
+    def __init__(self, problem, population_size=8, **kwargs):
+        super().__init__(problem, population_size=population_size, **kwargs)
+        self.tag = _next_tag(self.label, problem, population_size)
 
     def step(self):
         if SLOW_FIRST["on"]:
             time.sleep(UNIT * max(0, 3 - self.tag[2]))
         super().step()
         r = TaggedResult(self.result)
-        r.tag = self.tag
+        r.tag = (self.tag[0], self.tag[1], self.tag[2], len(self.population))
         self.result = r
